@@ -1489,6 +1489,9 @@ func (a *tsRun) sinkEvent(s *tsState, f *frame, in *ssa.Call, role int, m string
 	if c.BindParams != nil {
 		argDescr = strings.Join(tags, ",")
 	}
+	if m == "WriteFrame" {
+		bump(s.ghosts, "wn:"+rn) // frames handed to this sink in the current entry call (saturates at 2)
+	}
 	a.record(s, "sink:"+m, role, -1, argDescr, in)
 	errAlts := []val{vnil(false)}
 	if c.Fault {
@@ -1505,7 +1508,11 @@ func (a *tsRun) sinkEvent(s *tsState, f *frame, in *ssa.Call, role int, m string
 			a.violation(s, in, "Y1", fmt.Sprintf("sink=%s/WriteFrame-while-closed", rn), "WriteFrame on the "+rn+" sink while no recording is open")
 		}
 		labels := []string{"", "Write(" + rn + ")=err"}
-		a.forkResult(s, in, errAlts, labels[:len(errAlts)], nil)
+		a.forkResult(s, in, errAlts, labels[:len(errAlts)], func(n *tsState, i int) {
+			if i == 1 {
+				n.ghosts["wfail:"+rn] = 1
+			}
+		})
 		return true
 	case "StartRecording":
 		if s.sinks[role] != 0 {
@@ -1621,6 +1628,13 @@ func (a *tsRun) Explore(keepInit func(s *tsState) bool) {
 			} else {
 				fr := &frame{fn: ev.Fn, regs: map[ssa.Value]val{}, pred: -1}
 				fr.regs[ev.Fn.Params[0]] = val{k: kRecv}
+				for _, p := range ev.Fn.Params[1:] {
+					// the properties quantify over the frames / buffers the daemon is handed: a pointer argument of an entry
+					// call is a value (a guard against nil in front of its first use cannot trigger)
+					if _, isPtr := p.Type().Underlying().(*types.Pointer); isPtr {
+						fr.regs[p] = vnil(true)
+					}
+				}
 				if c.BindParams != nil {
 					c.BindParams(s, fr, ev)
 				}
